@@ -18,7 +18,13 @@ RULE = (
     "db.from_sequence(list), dd.from_pandas(frame/series). Oracle: for every i, dask.compute(c1..cn)[i] equals "
     "ci.compute() equals the plain NumPy/pandas/Python reference of the same program; additionally unequal inputs (canon "
     "differs) must not yield equal collection names. Non-trivial: inputs unequal but related by a collision-prone mutation "
-    "and passing through a tokenised constructor."
+    "and passing through a tokenised constructor. programs: the SAME input through 2-4 near-identical programs drawn from one "
+    "of ~60 parameterised families (array: ufunc dtype=, where=/out=, scalar kind 1/1.0/True/np.int8(1), reductions' axis/"
+    "keepdims/split_every/ddof, slices, astype, clip, map_blocks kwargs/partials, cumulative method, topk, pad, creation "
+    "routines, seeded random, percentile, overlap, isin, take, rechunk, reshape, tensordot, histogram; bag: map/filter/fold/"
+    "topk/random_sample/from_sequence; delayed: pure calls with near-identical args/kwargs/nested containers; frames: scalar "
+    "ops, filters, assign, fillna, groupby, rolling, shift, sample, from_pandas...). Oracle: computed together == computed alone "
+    "for every variant, and variants with different values never share a name. Non-trivial there: >= 2 distinct parameter sets."
 )
 ASSUMPTIONS = ["observable equality of inputs is decided by vf.values.canon", "all programs are deterministic functions of their input"]
 TECHNIQUE = "Hypothesis-generated near-identical inputs through collection constructors; differential (together vs alone vs NumPy/pandas reference) + name-distinctness invariant"
@@ -125,7 +131,9 @@ def _name_of(c):
     t = type(c).__module__
     if "dataframe" in t:
         return c.expr._name
-    if type(c).__name__ == "Delayed":
+    from dask.delayed import Delayed
+
+    if isinstance(c, Delayed):  # (incl. DelayedLeaf / DelayedAttr, whose attribute access is lazy)
         return c.key
     return c.name
 
@@ -178,6 +186,437 @@ def nontrivial(case):
     return any(m not in ("same", "independent", "-") for m in case.get("mut", "").split("+"))
 
 
+# --------------------------------------------------------------------------
+# "programs": the SAME input through 2-4 near-identical PROGRAMS (one family, slightly different
+# parameters: dtype=, where=/out=, scalar kind, axis, keepdims, split_every, k, seed, ...).  Oracle: every
+# collection computed together equals itself computed alone; collections whose alone-results differ
+# must not share a name.
+
+import functools
+import operator
+
+
+def _scaled(b, k=1):
+    return b * k
+
+
+def _addk(x, k=0):
+    return x + k
+
+
+def _const(k):
+    return k
+
+
+def _pair(x, k=None, **kw):
+    return ("pair", V.canon(x), V.canon(k), tuple(sorted((a, V.canon(b)) for a, b in kw.items())))
+
+
+SCALARS = {"i1": 1, "f1": 1.0, "true": True, "np_i1": np.int8(1), "np_f4": np.float32(1), "i2": 2, "np_i8": np.int64(1), "c1": 1 + 0j}
+
+
+def _arr_variant(fam, x, dx, p):
+    import dask.array as da
+
+    if fam == "ufunc_dtype":
+        f = getattr(da, p["fn"])
+        return f(dx, dtype=p["dtype"]) if p["fn"] != "add" else da.add(dx, dx, dtype=p["dtype"])
+    if fam == "ufunc_where":
+        m = np.random.default_rng(p["mseed"]).random(x.shape) < 0.5
+        out = da.full(x.shape, p["fill"], dtype=x.dtype, chunks=dx.chunks)
+        return da.add(dx, dx, where=m, out=out)
+    if fam == "scalar_kind":
+        return getattr(operator, p["op"])(dx, SCALARS[p["k"]])
+    if fam == "reduce":
+        kw = {"axis": tuple(p["axis"]) if isinstance(p["axis"], list) else p["axis"], "keepdims": p["keepdims"], "split_every": p["split_every"]}
+        if p["fn"] in ("std", "var"):
+            kw["ddof"] = p["ddof"]
+        return getattr(dx, p["fn"])(**kw)
+    if fam == "slice":
+        return dx[tuple(slice(*i) if isinstance(i, list) else i for i in p["index"])]
+    if fam == "astype":
+        return dx.astype(p["dtype"])
+    if fam == "clip":
+        return da.clip(dx, p["lo"], p["hi"])
+    if fam == "round":
+        return da.round(dx, p["decimals"])
+    if fam == "map_blocks_kw":
+        return dx.map_blocks(_scaled, k=SCALARS[p["k"]], dtype=np.result_type(x.dtype, type(SCALARS[p["k"]])))
+    if fam == "map_blocks_partial":
+        return dx.map_blocks(functools.partial(_scaled, k=SCALARS[p["k"]]), dtype=np.result_type(x.dtype, type(SCALARS[p["k"]])))
+    if fam == "cum":
+        return getattr(da, p["fn"])(dx, axis=p["axis"], method=p["method"])
+    if fam == "topk":
+        return da.topk(dx, p["k"], axis=p["axis"])
+    if fam == "where_thr":
+        return da.where(dx > p["t"], dx, SCALARS[p["k"]])
+    if fam == "roll":
+        return da.roll(dx, p["shift"], axis=p["axis"])
+    if fam == "pad":
+        return da.pad(dx, p["width"], mode=p["mode"], **({"constant_values": p["cv"]} if p["mode"] == "constant" else {}))
+    if fam == "full":
+        return da.full(tuple(p["shape"]), SCALARS[p["k"]], chunks=p["chunk"])
+    if fam == "arange":
+        return da.arange(p["start"], p["stop"], p["step"], chunks=p["chunk"], dtype=p["dtype"])
+    if fam == "linspace":
+        return da.linspace(p["start"], p["stop"], p["num"], endpoint=p["endpoint"], chunks=p["chunk"], dtype=p["dtype"])
+    if fam == "random":
+        rs = da.random.default_rng(p["seed"])
+        return getattr(rs, p["dist"])(size=tuple(p["shape"]), chunks=p["chunk"])
+    if fam == "percentile":
+        return da.percentile(dx.ravel(), p["q"], method=p["method"])
+    if fam == "overlap":
+        return dx.map_overlap(_addk, depth=p["depth"], boundary=p["boundary"], k=0)
+    if fam == "isin":
+        return da.isin(dx, p["test"], invert=p["invert"])
+    if fam == "take":
+        return da.take(dx, p["idx"], axis=0)
+    if fam == "repeat":
+        return da.repeat(dx, p["n"], axis=p["axis"])
+    if fam == "rechunk":
+        return dx.rechunk(p["chunks"])
+    if fam == "reshape":
+        return dx.reshape(p["shape"])
+    if fam == "tensordot":
+        return da.tensordot(dx, dx.T if p["t"] else dx, axes=p["axes"])
+    if fam == "histogram":
+        return da.histogram(dx, bins=p["bins"], range=(p["lo"], p["hi"]))[0]
+    if fam == "from_array":
+        return da.from_array(x, chunks=p["chunks"], **({"asarray": p["asarray"]} if p["asarray"] is not None else {}))
+    raise ValueError(fam)
+
+
+@st.composite
+def _arr_params(draw, fam):
+    ax = st.sampled_from([0, 1])
+    if fam == "ufunc_dtype":
+        return {"fn": draw(st.sampled_from(["sqrt", "absolute", "add", "negative"])), "dtype": draw(st.sampled_from([None, "f4", "f8", "c16", "c8"]))}
+    if fam == "ufunc_where":
+        return {"mseed": draw(st.integers(0, 2)), "fill": draw(st.sampled_from([0, 7, 1]))}
+    if fam == "scalar_kind":
+        return {"op": draw(st.sampled_from(["add", "mul", "sub", "truediv", "pow"])), "k": draw(st.sampled_from(list(SCALARS)))}
+    if fam == "reduce":
+        return {"fn": draw(st.sampled_from(["sum", "mean", "max", "std", "var", "prod", "any"])), "axis": draw(st.sampled_from([None, 0, 1, [0, 1], -1])), "keepdims": draw(st.booleans()), "split_every": draw(st.sampled_from([None, 2, 3])), "ddof": draw(st.sampled_from([0, 1]))}
+    if fam == "slice":
+        one = st.sampled_from([[None, None, 2], [1, None, 2], [None, None, -1], [0, 2, 1], [1, 3, 1], 0, 1, -1, [None, None, 1]])
+        return {"index": [draw(one), draw(one)]}
+    if fam == "astype":
+        return {"dtype": draw(st.sampled_from(["f4", "f8", "i4", "i8", "c16", "bool", "u1"]))}
+    if fam == "clip":
+        return {"lo": draw(st.sampled_from([-2, -2.0, 0, 1])), "hi": draw(st.sampled_from([2, 2.0, 3, 5]))}
+    if fam == "round":
+        return {"decimals": draw(st.integers(-1, 2))}
+    if fam in ("map_blocks_kw", "map_blocks_partial"):
+        return {"k": draw(st.sampled_from(["i1", "f1", "i2", "np_i1", "np_f4", "true"]))}
+    if fam == "cum":
+        return {"fn": draw(st.sampled_from(["cumsum", "cumprod"])), "axis": draw(ax), "method": draw(st.sampled_from(["sequential", "blelloch"]))}
+    if fam == "topk":
+        return {"k": draw(st.sampled_from([1, 2, -1, -2, 3])), "axis": draw(ax)}
+    if fam == "where_thr":
+        return {"t": draw(st.sampled_from([0, 0.0, 1, -1])), "k": draw(st.sampled_from(["i1", "f1", "true", "i2"]))}
+    if fam == "roll":
+        return {"shift": draw(st.sampled_from([1, 2, -1, 0])), "axis": draw(st.sampled_from([None, 0, 1]))}
+    if fam == "pad":
+        return {"width": draw(st.sampled_from([1, 2])), "mode": draw(st.sampled_from(["constant", "edge", "reflect"])), "cv": draw(st.sampled_from([0, 1, 0.0]))}
+    if fam == "full":
+        return {"shape": [4, 3], "k": draw(st.sampled_from(["i1", "f1", "true", "i2", "np_i1", "np_f4", "c1"])), "chunk": draw(st.sampled_from([2, 3]))}
+    if fam == "arange":
+        return {"start": draw(st.sampled_from([0, 1])), "stop": draw(st.sampled_from([6, 7])), "step": draw(st.sampled_from([1, 2])), "chunk": draw(st.sampled_from([2, 3])), "dtype": draw(st.sampled_from([None, "f8", "i4"]))}
+    if fam == "linspace":
+        return {"start": 0, "stop": draw(st.sampled_from([1, 2])), "num": draw(st.sampled_from([5, 6])), "endpoint": draw(st.booleans()), "chunk": draw(st.sampled_from([2, 3])), "dtype": draw(st.sampled_from([None, "f4"]))}
+    if fam == "random":
+        return {"seed": draw(st.integers(0, 2)), "dist": draw(st.sampled_from(["random", "standard_normal"])), "shape": [4, 3], "chunk": draw(st.sampled_from([2, 3]))}
+    if fam == "percentile":
+        return {"q": draw(st.sampled_from([[50], [25, 75], [50.0], [0, 100]])), "method": draw(st.sampled_from(["linear", "lower", "nearest"]))}
+    if fam == "overlap":
+        return {"depth": draw(st.sampled_from([0, 1, 2])), "boundary": draw(st.sampled_from(["reflect", "nearest", "none", 0, 1]))}
+    if fam == "isin":
+        return {"test": draw(st.sampled_from([[1, 2], [1.0, 2.0], [2, 1], [1], [True]])), "invert": draw(st.booleans())}
+    if fam == "take":
+        return {"idx": draw(st.sampled_from([[0, 1], [1, 0], [0, 0], [0, 1, 1], [-1]]))}
+    if fam == "repeat":
+        return {"n": draw(st.sampled_from([1, 2, 3])), "axis": draw(ax)}
+    if fam == "rechunk":
+        return {"chunks": draw(st.sampled_from([[2, 3], [4, 6], [1, 6], [4, 1], [3, 2]]))}
+    if fam == "reshape":
+        return {"shape": draw(st.sampled_from([[24], [6, 4], [2, 12], [2, 2, 6], [4, 6], [3, 8]]))}
+    if fam == "tensordot":
+        return {"t": True, "axes": draw(st.sampled_from([1, [[1], [0]], [[0], [1]], [[1], [1]]]))}
+    if fam == "histogram":
+        return {"bins": draw(st.sampled_from([2, 3, 4])), "lo": draw(st.sampled_from([-10, -5])), "hi": draw(st.sampled_from([10, 5]))}
+    if fam == "from_array":
+        return {"chunks": draw(st.sampled_from([[2, 3], [4, 6], [2, 6]])), "asarray": draw(st.sampled_from([None, True, False]))}
+    raise ValueError(fam)
+
+
+ARRAY_FAMS = [
+    "ufunc_dtype", "ufunc_where", "scalar_kind", "reduce", "slice", "astype", "clip", "round", "map_blocks_kw", "map_blocks_partial",
+    "cum", "topk", "where_thr", "roll", "pad", "full", "arange", "linspace", "random", "percentile", "overlap", "isin", "take",
+    "repeat", "rechunk", "reshape", "tensordot", "histogram", "from_array",
+]
+
+
+def _bag_variant(fam, seq, b, p):
+    if fam == "map_kw":
+        return b.map(_addk, k=SCALARS[p["k"]])
+    if fam == "map_partial":
+        return b.map(functools.partial(_addk, k=SCALARS[p["k"]]))
+    if fam == "filter":
+        return b.filter(functools.partial(operator.lt, p["t"]))
+    if fam == "topk":
+        return b.topk(p["k"])
+    if fam == "fold":
+        return b.fold(operator.add, initial=SCALARS[p["k"]], split_every=p["split_every"])
+    if fam == "random_sample":
+        return b.random_sample(p["prob"], random_state=p["seed"])
+    if fam == "map_partitions":
+        return b.map_partitions(lambda part, k: [x * k for x in part], SCALARS[p["k"]])
+    if fam == "from_sequence":
+        import dask.bag as db
+
+        return db.from_sequence(seq, npartitions=p["npartitions"])
+    if fam == "reduction":
+        return b.reduction(sum, sum, split_every=p["split_every"], out_type=None) if p["which"] == "sum" else b.reduction(max, max, split_every=p["split_every"])
+    raise ValueError(fam)
+
+
+@st.composite
+def _bag_params(draw, fam):
+    if fam in ("map_kw", "map_partial", "map_partitions"):
+        return {"k": draw(st.sampled_from(["i1", "f1", "true", "i2", "np_i1"]))}
+    if fam == "filter":
+        return {"t": draw(st.sampled_from([0, 1, 2, 0.0, 1.5]))}
+    if fam == "topk":
+        return {"k": draw(st.sampled_from([1, 2, 3]))}
+    if fam == "fold":
+        return {"k": draw(st.sampled_from(["i1", "f1", "true", "i2"])), "split_every": draw(st.sampled_from([None, 2]))}
+    if fam == "random_sample":
+        return {"prob": draw(st.sampled_from([0.5, 0.75])), "seed": draw(st.integers(0, 2))}
+    if fam == "from_sequence":
+        return {"npartitions": draw(st.sampled_from([1, 2, 3]))}
+    if fam == "reduction":
+        return {"which": draw(st.sampled_from(["sum", "max"])), "split_every": draw(st.sampled_from([None, 2]))}
+    raise ValueError(fam)
+
+
+BAG_FAMS = ["map_kw", "map_partial", "filter", "topk", "fold", "random_sample", "map_partitions", "from_sequence", "reduction"]
+
+DELAYED_ARGS = {
+    "i1": 1, "f1": 1.0, "true": True, "s1": "1", "b1": b"1", "list12": [1, 2], "tup12": (1, 2), "set12": {1, 2}, "list21": [2, 1],
+    "dict": {"a": 1}, "dict_f": {"a": 1.0}, "none": None, "np_i1": np.int8(1), "nested": [[1], 2], "nested2": [1, [2]], "slice": slice(1, 2),
+    "slice2": slice(1, 2, None), "slice3": slice(None, 2), "arr_i": np.array([1, 2]), "arr_f": np.array([1.0, 2.0]),
+}
+
+
+def _delayed_variant(fam, v, p):
+    from dask import delayed
+
+    if fam == "arg":
+        return delayed(_pair, pure=True)(v, DELAYED_ARGS[p["k"]])
+    if fam == "kwarg":
+        return delayed(_pair, pure=True)(v, **{p["name"]: DELAYED_ARGS[p["k"]]})
+    if fam == "const":
+        return delayed(DELAYED_ARGS[p["k"]], pure=True)
+    if fam == "nested":
+        inner = delayed(_const, pure=True)(DELAYED_ARGS[p["k"]])
+        return delayed(_pair, pure=True)([inner, DELAYED_ARGS[p["k2"]]])
+    if fam == "method":
+        d = delayed([3, 1, 2], pure=True)
+        return d[p["i"]] if p["how"] == "item" else d.count(p["i"], pure=True) if p["how"] == "count" else d.index(p["i"] + 1, pure=True)
+    raise ValueError(fam)
+
+
+@st.composite
+def _delayed_params(draw, fam):
+    k = st.sampled_from(list(DELAYED_ARGS))
+    if fam in ("arg", "const"):
+        return {"k": draw(k)}
+    if fam == "kwarg":
+        return {"k": draw(k), "name": draw(st.sampled_from(["k", "a", "b"]))}
+    if fam == "nested":
+        return {"k": draw(k), "k2": draw(k)}
+    if fam == "method":
+        return {"i": draw(st.integers(0, 2)), "how": draw(st.sampled_from(["item", "count", "index"]))}
+    raise ValueError(fam)
+
+
+DELAYED_FAMS = ["arg", "kwarg", "const", "nested", "method"]
+
+
+def _frame_variant(fam, pdf, ddf, p):
+    if fam == "scalar":
+        return getattr(operator, p["op"])(ddf.a, SCALARS[p["k"]])
+    if fam == "filter":
+        return ddf[ddf.a > p["t"]]
+    if fam == "assign":
+        return ddf.assign(z=SCALARS[p["k"]])
+    if fam == "fillna":
+        return ddf.fillna(SCALARS[p["k"]])
+    if fam == "groupby":
+        return getattr(ddf.groupby(p["by"])[p["col"]], p["agg"])()
+    if fam == "rolling":
+        return getattr(ddf.b.rolling(p["w"], min_periods=p["mp"]), p["agg"])()
+    if fam == "shift":
+        return ddf.shift(p["n"])
+    if fam == "clip":
+        return ddf.b.clip(p["lo"], p["hi"])
+    if fam == "astype":
+        return ddf.a.astype(p["dtype"])
+    if fam == "sample":
+        return ddf.sample(frac=p["frac"], random_state=p["seed"])
+    if fam == "map_partitions":
+        return ddf.map_partitions(_scaled, k=SCALARS[p["k"]])
+    if fam == "isin":
+        return ddf.a.isin(p["vals"])
+    if fam == "nlargest":
+        return ddf.nlargest(p["n"], p["col"])
+    if fam == "head":
+        return ddf.head(p["n"], npartitions=-1, compute=False)
+    if fam == "from_pandas":
+        import dask.dataframe as dd
+
+        return dd.from_pandas(pdf, npartitions=p["npartitions"], sort=p["sort"])
+    if fam == "rename":
+        return ddf.rename(columns={"a": p["to"]})
+    if fam == "reduction":
+        return getattr(ddf[p["col"]], p["agg"])()
+    raise ValueError(fam)
+
+
+@st.composite
+def _frame_params(draw, fam):
+    k = st.sampled_from(["i1", "f1", "true", "i2", "np_i1"])
+    if fam == "scalar":
+        return {"op": draw(st.sampled_from(["add", "mul", "sub", "truediv"])), "k": draw(k)}
+    if fam == "filter":
+        return {"t": draw(st.sampled_from([0, 1, 2, 1.0, 1.5]))}
+    if fam in ("assign", "fillna", "map_partitions"):
+        return {"k": draw(k)}
+    if fam == "groupby":
+        return {"by": draw(st.sampled_from(["a", "c"])), "col": draw(st.sampled_from(["b", "a"])), "agg": draw(st.sampled_from(["sum", "mean", "count", "max", "min", "size"]))}
+    if fam == "rolling":
+        return {"w": draw(st.sampled_from([1, 2, 3])), "mp": draw(st.sampled_from([None, 1])), "agg": draw(st.sampled_from(["sum", "mean", "max"]))}
+    if fam == "shift":
+        return {"n": draw(st.sampled_from([1, 2, -1, 0]))}
+    if fam == "clip":
+        return {"lo": draw(st.sampled_from([0, 1, 1.0])), "hi": draw(st.sampled_from([2, 3, 2.0]))}
+    if fam == "astype":
+        return {"dtype": draw(st.sampled_from(["f8", "f4", "i4", "i8", "object"]))}
+    if fam == "sample":
+        return {"frac": draw(st.sampled_from([0.5, 0.75])), "seed": draw(st.integers(0, 2))}
+    if fam == "isin":
+        return {"vals": draw(st.sampled_from([[1, 2], [2, 1], [1.0, 2.0], [1], [True]]))}
+    if fam == "nlargest":
+        return {"n": draw(st.sampled_from([1, 2, 3])), "col": draw(st.sampled_from(["a", "b"]))}
+    if fam == "head":
+        return {"n": draw(st.sampled_from([1, 2, 3]))}
+    if fam == "from_pandas":
+        return {"npartitions": draw(st.sampled_from([1, 2, 3])), "sort": draw(st.booleans())}
+    if fam == "rename":
+        return {"to": draw(st.sampled_from(["x", "y", "a"]))}
+    if fam == "reduction":
+        return {"col": draw(st.sampled_from(["a", "b"])), "agg": draw(st.sampled_from(["sum", "mean", "max", "min", "count", "std", "nunique"]))}
+    raise ValueError(fam)
+
+
+FRAME_FAMS = ["scalar", "filter", "assign", "fillna", "groupby", "rolling", "shift", "clip", "astype", "sample", "map_partitions", "isin", "nlargest", "head", "from_pandas", "rename", "reduction"]
+
+
+def _build_program_variants(case):
+    kind, fam = case["kind"], case["family"]
+    seed = case["seed"]
+    rng = np.random.default_rng(seed)
+    if kind == "array":
+        import dask.array as da
+
+        x = rng.integers(-3, 6, size=(4, 6)).astype(case.get("dtype", "f8"))
+        dx = da.from_array(x, chunks=(2, 3))
+        return [_arr_variant(fam, x, dx, p) for p in case["variants"]]
+    if kind == "bag":
+        import dask.bag as db
+
+        seq = [int(v) for v in rng.integers(0, 5, size=7)]
+        b = db.from_sequence(seq, npartitions=3)
+        return [_bag_variant(fam, seq, b, p) for p in case["variants"]]
+    if kind == "delayed":
+        v = [int(v) for v in rng.integers(0, 5, size=3)]
+        return [_delayed_variant(fam, v, p) for p in case["variants"]]
+    if kind == "frame":
+        import dask.dataframe as dd
+        import pandas as pd
+
+        n = 9
+        pdf = pd.DataFrame({"a": rng.integers(0, 4, size=n), "b": rng.integers(0, 9, size=n).astype("f8"), "c": rng.integers(0, 2, size=n)})
+        pdf.loc[pdf.index[2], "b"] = np.nan
+        ddf = dd.from_pandas(pdf, npartitions=3)
+        return [_frame_variant(fam, pdf, ddf, p) for p in case["variants"]]
+    raise ValueError(kind)
+
+
+def _cmp_value(v):
+    """order-insensitive where the API leaves the order open is NOT needed: the same collection is compared with itself"""
+    return V.canon(_norm(v))
+
+
+def check_programs(case):
+    import dask
+
+    sig = dict(kind=case["kind"], family=case["family"])
+    try:
+        with np.errstate(all="ignore"):
+            colls = _build_program_variants(case)
+    except Exception as e:  # noqa: BLE001 - an invalid parameter combination is out of this property's domain
+        raise Reject(f"program does not build: {type(e).__name__}")
+    alone = []
+    for c in colls:
+        try:
+            with np.errstate(all="ignore"):
+                alone.append(c.compute(scheduler="sync"))
+        except Exception as e:  # noqa: BLE001 - (whether each program works alone is C19-C48's business)
+            raise Reject(f"program fails alone: {type(e).__name__}")
+    with impl("dask.compute(together)", **sig), np.errstate(all="ignore"):
+        together = dask.compute(*colls, scheduler="sync")
+    for i in range(len(colls)):
+        ensure(
+            _cmp_value(together[i]) == _cmp_value(alone[i]),
+            f"{case['kind']}/{case['family']} variant {i} {case['variants'][i]}: computed together {short(together[i], 200)} != computed alone {short(alone[i], 200)} (all variants {case['variants']})",
+            "together-differs-from-alone",
+            **sig,
+        )
+    names = [_name_of(c) for c in colls]
+    for i in range(len(colls)):
+        for j in range(i + 1, len(colls)):
+            if _cmp_value(alone[i]) != _cmp_value(alone[j]):
+                ensure(names[i] != names[j], f"{case['kind']}/{case['family']}: variants {case['variants'][i]} / {case['variants'][j]} give different values but share the name {names[i]!r}", "name-collision", **sig)
+
+
+@st.composite
+def programs_case(draw):
+    kind = draw(st.sampled_from(["array", "array", "array", "bag", "delayed", "frame", "frame"]))
+    fams, params = {"array": (ARRAY_FAMS, _arr_params), "bag": (BAG_FAMS, _bag_params), "delayed": (DELAYED_FAMS, _delayed_params), "frame": (FRAME_FAMS, _frame_params)}[kind]
+    fam = draw(st.sampled_from(fams))
+    n = draw(st.integers(2, 4))
+    variants = [draw(params(fam)) for _ in range(n)]
+    case = {"kind": kind, "family": fam, "seed": draw(st.integers(0, 50)), "variants": variants}
+    if kind == "array":
+        case["dtype"] = draw(st.sampled_from(["f8", "i8", "f4", "i4"]))
+    return case
+
+
+def programs_nontrivial(case):
+    from vf.core import canon_json
+
+    return len({canon_json(v) for v in case["variants"]}) >= 2
+
+
+def programs_classes(case):
+    from vf.core import canon_json
+
+    yield "kind-" + case["kind"]
+    yield f"{case['kind']}-{case['family']}"
+    yield "distinct-variants-%d" % len({canon_json(v) for v in case["variants"]})
+
+
 SUBCHECKS = [
     Sub(
         "together",
@@ -187,5 +626,14 @@ SUBCHECKS = [
         nontrivial=nontrivial,
         classes=lambda c: ["kind-" + c["kind"], "prog-" + c.get("prog", "-")] + ["mut-" + m for m in c.get("mut", "").split("+")],
         doc="near-identical inputs through from_array / pure delayed / from_sequence / from_pandas, computed together vs alone",
+    ),
+    Sub(
+        "programs",
+        check_programs,
+        strategy=lambda tier: programs_case(),
+        n={"quick": 2500, "thorough": 60000},
+        nontrivial=programs_nontrivial,
+        classes=programs_classes,
+        doc="the same input through 2-4 near-identical programs of one family (dtype=, where=/out=, scalar kind, axis, k, seed...), computed together vs alone; names distinct when values differ",
     ),
 ]
